@@ -3,7 +3,9 @@
    and writes, per case: the history, what the code did per item (result class, ExecuteTxs call, cursor
    passed to the sequencer, shapes of the atomic datastore writes, store height and recorded state
    afterwards, and the projection of the block records the node's store SERVES afterwards at the store height
-   and at the pending height above it) and the projection of the block record served at every height at the end.
+   and at the pending height above it; for a shutdown: the operations the real SaveCache performed on the cache
+   files, as the kernel reported them, up to the point where the process was cut) and the projection of the block
+   record served at every height at the end.
    [mismatches] lists the cases on which the model disagrees. Only projected observables are compared. *)
 From Coq Require Import String NArith ZArith List Bool.
 From Verif Require Import Base.KV Base.Keys Model.Types Model.Producer.
@@ -11,6 +13,11 @@ Import ListNotations.
 Open Scope N_scope.
 
 Inductive shape := HCursor (c : N) | HBlock (n : N) | HHeight (n : N) | HState | HOther.
+
+(* an operation on a file of the cache directory as the harness recorded it (inotify): create / open-for-writing
+   = FCreate, close-after-write = FWrite, move = FRename, on the final or temporary name of cache file 0..7;
+   anything else (another name, a removal) = XOther *)
+Inductive fshape := XOp (o : fop) | XOther.
 
 Record pblock := mk_pb {
   pb_height : N; pb_time : Z; pb_txs : list N;
@@ -33,8 +40,9 @@ Record obs := mk_obs {
   ob_shapes : list shape;                      (* atomic writes that reached the datastore, in order *)
   ob_height : N;                               (* store height afterwards *)
   ob_state : option (N * Z * N);               (* recorded state afterwards: height, time, app root *)
-  ob_tip : list (option pblock)                (* afterwards: the block records SERVED by the store the node runs on (a freshly opened
+  ob_tip : list (option pblock);               (* afterwards: the block records SERVED by the store the node runs on (a freshly opened
                                                   one when no process runs) at the store height and one above it (the pending block) *)
+  ob_fops : list fshape                        (* shutdown: the completed operations on cache files, in order *)
 }.
 
 Record pcase := mk_case {
@@ -122,7 +130,8 @@ Definition proj_obs (c : cfg) (st : mach) (o : iout) : obs :=
   let m := img_of st in
   mk_obs code n (o_call o) (o_req o) (map write_shape (o_ws o)) (g_height m)
          (match g_state m with Some s => Some (s_height s, s_time s, s_app s) | None => None end)
-         [proj_block c m (g_height m); proj_block c m (g_height m + 1)].
+         [proj_block c m (g_height m); proj_block c m (g_height m + 1)]
+         (map XOp (o_fops o)).
 
 Fixpoint run_obs (c : cfg) (st : mach) (h : list item) : mach * list obs :=
   match h with
@@ -160,6 +169,14 @@ Definition shape_eqb (a b : shape) : bool :=
   | HState, HState => true
   | _, _ => false       (* HOther never matches: an unexpected write is a mismatch *)
   end.
+Definition fop_eqb (a b : fop) : bool :=
+  match a, b with
+  | FCreate x, FCreate y | FWrite x, FWrite y => fname_eqb x y
+  | FRename x x', FRename y y' => fname_eqb x y && fname_eqb x' y'
+  | _, _ => false
+  end.
+Definition fshape_eqb (a b : fshape) : bool :=
+  match a, b with XOp x, XOp y => fop_eqb x y | _, _ => false end.   (* XOther never matches *)
 Definition call_eqb (a b : N * list N * Z * N) : bool :=
   let '(h, t, z, p) := a in let '(h', t', z', p') := b in
   (h =? h') && list_eqb N.eqb t t' && (z =? z')%Z && (p =? p').
@@ -176,7 +193,7 @@ Definition obs_eqb (a b : obs) : bool :=
   (ob_res a =? ob_res b) && (ob_n a =? ob_n b) && opt_eqb call_eqb (ob_call a) (ob_call b) &&
   opt_eqb N.eqb (ob_req a) (ob_req b) && list_eqb shape_eqb (ob_shapes a) (ob_shapes b) &&
   (ob_height a =? ob_height b) && opt_eqb state_eqb (ob_state a) (ob_state b) &&
-  list_eqb (opt_eqb pblock_eqb) (ob_tip a) (ob_tip b).
+  list_eqb (opt_eqb pblock_eqb) (ob_tip a) (ob_tip b) && list_eqb fshape_eqb (ob_fops a) (ob_fops b).
 
 (* 1 = per-item observations differ, 2 = final blocks differ *)
 Definition check_case (k : pcase) : list N :=
